@@ -1,5 +1,5 @@
 //! C19: capability text. The complete bounded domain over the 13-token alphabet of the property's
-//! quantifier goes through FileCaps::from_str, FileCaps::new and FileOptions::caps in blocks of
+//! quantifier goes through FileCaps::from_str, FileCaps::new, FileOptions::caps and validate_caps_text in blocks of
 //! 256 canonical indices, plus seeded longer strings over all 41 names.
 use crate::util::*;
 use rpm::{FileCaps, FileOptions};
@@ -23,11 +23,12 @@ pub fn observe(text: &str) -> i32 {
         let a = FileCaps::from_str(text);
         let b = FileCaps::new(text.to_string());
         let c = FileOptions::new("/f").caps(text);
-        match (a, b, c) {
-            (Ok(a), Ok(b), Ok(_)) => {
+        let d = rpm::validate_caps_text(text);
+        match (a, b, c, d) {
+            (Ok(a), Ok(b), Ok(_), Ok(())) => {
                 if a.to_string() == text && b.to_string() == text { 1 } else { 2 }
             }
-            (Err(_), Err(_), Err(_)) => 0,
+            (Err(_), Err(_), Err(_), Err(_)) => 0,
             _ => 2,
         }
     });
